@@ -3,7 +3,7 @@
 (failing sub-properties, classes) with the smallest example of each."""
 import sys, json, os, importlib.util, collections
 from importlib.machinery import SourceFileLoader
-chk = SourceFileLoader("chk", "/verif/check").load_module()
+chk = SourceFileLoader("chk", os.path.join(os.path.dirname(os.path.abspath(__file__)), "check")).load_module()
 prop = sys.argv[1]; seed = int(sys.argv[2]) if len(sys.argv) > 2 else 1
 tier = sys.argv[3] if len(sys.argv) > 3 else "quick"
 ok, out = chk.build_harness()
